@@ -588,6 +588,17 @@ func (s *Server) logOnly(ci *cmdInfo, cmd string, args [][]byte) bool {
 	return ci != nil && ci.write && ci.conn == nil && s.opt.LogOnly != nil && s.opt.LogOnly(cmd, args)
 }
 
+// logOnlyReply: what a command that is only logged answers.  The pop/get-and-set family answers
+// the null bulk Redis gives for a key that does not exist (a legal reply the tool must take as
+// an acknowledgement like any other); everything else answers OK.
+func logOnlyReply(cmd string) Reply {
+	switch cmd {
+	case "LPOP", "RPOP", "SPOP", "GETSET", "GETDEL", "RPOPLPUSH":
+		return nil
+	}
+	return OK
+}
+
 func arityOK(ci *cmdInfo, n int) bool {
 	if ci.arity >= 0 {
 		return n == ci.arity
@@ -633,8 +644,9 @@ func (s *Server) applyLocked(c *conn, cmd string, args [][]byte, reqSeq, qSeq, t
 		return r
 	}
 	if ci.write && s.opt.LogOnly != nil && s.opt.LogOnly(cmd, args) {
-		s.logApp(c, cmd, args, reqSeq, qSeq, txn, pos, OK, true, at)
-		return OK
+		r := logOnlyReply(cmd)
+		s.logApp(c, cmd, args, reqSeq, qSeq, txn, pos, r, true, at)
+		return r
 	}
 	cx := &ctx{s: s, db: c.db, now: at, c: c}
 	r := ci.fn(cx, args)
